@@ -52,9 +52,10 @@ type GCase struct {
 	Race      bool      `json:"race,omitempty"`
 	Cold      bool      `json:"cold,omitempty"` // concurrent run first, references afterwards (cold package state)
 	// freeze strategy, see simrt.Config
-	FreezeClient int `json:"freeze_client,omitempty"`
-	FreezeAt     int `json:"freeze_at,omitempty"`
-	Procs        int `json:"procs,omitempty"` // value of woven GOMAXPROCS(0)/NumCPU() in the scheduled run (the reference uses 1)
+	FreezeClient int      `json:"freeze_client,omitempty"`
+	FreezeAt     int      `json:"freeze_at,omitempty"`
+	Procs        int      `json:"procs,omitempty"`      // value of woven GOMAXPROCS(0)/NumCPU() in the scheduled run (the reference uses 1)
+	ClockTape    []uint32 `json:"clock_tape,omitempty"` // steps of the simulated clock per reading (the reference's clock stands still)
 }
 
 type Job struct {
@@ -297,7 +298,7 @@ func runCase(t *testing.T, c GCase, keepLog bool) (out Outcome) {
 					clients = append(clients, simrt.Client{Name: fmt.Sprintf("c%d", i), Run: func() { got[i] = generate(cl, nil) }})
 				}
 				res = simrt.Run(simrt.Config{Tape: c.SchedTape, ActiveNum: c.ActiveNum, ActiveDen: c.ActiveDen, SiteSeed: c.SiteSeed,
-					Budget: c.Budget, MapSeed: c.MapSeed, KeepLog: keepLog, FreezeClient: c.FreezeClient, FreezeAt: c.FreezeAt, Procs: c.Procs}, clients)
+					Budget: c.Budget, MapSeed: c.MapSeed, KeepLog: keepLog, FreezeClient: c.FreezeClient, FreezeAt: c.FreezeAt, Procs: c.Procs, ClockTape: c.ClockTape}, clients)
 			})
 		}()
 		if out.Skipped != "" {
@@ -324,6 +325,7 @@ func runCase(t *testing.T, c GCase, keepLog bool) (out Outcome) {
 			out.Stats["abandoned"] = 1
 		}
 		out.Stats["freeze_windows_opened"] += res.Thawed
+		out.Stats["clock_reads"] += res.ClockReads
 		out.Nontrivial = res.Preemptions > 0
 		out.Sig = res.LogHash
 		out.Log = res.Log
@@ -397,11 +399,30 @@ func genCase(seed uint64, i int, race bool, cold bool) GCase {
 		c.MapSeed = r.Uint64() | 1
 	}
 	c.Procs = []int{1, 2, 3, 4, 7, 8, 16, 64}[r.Intn(8)]
+	if r.Chance(2, 3) {
+		c.ClockTape = FillClock(r)
+	}
 	if len(c.Clients) > 1 && r.Chance(1, 2) {
 		c.FreezeClient = r.Intn(len(c.Clients))
 		c.FreezeAt = 1 + int(r.Float()*r.Float()*3000)
 	}
 	return c
+}
+
+// FillClock: a short tape of clock steps; most readings move the clock a
+// little, a few make it jump.
+func FillClock(r *simrt.SplitMix64) []uint32 {
+	out := make([]uint32, 64)
+	for i := range out {
+		switch r.Intn(4) {
+		case 0:
+		case 1, 2:
+			out[i] = uint32(5 * (1 + r.Intn(1000))) // v%5 == 0: microseconds
+		default:
+			out[i] = uint32(5*(1+r.Intn(1000)) + 1 + r.Intn(4))
+		}
+	}
+	return out
 }
 
 func memWatchdog() {
